@@ -127,7 +127,7 @@ class ReprObjHtml(ReprObj):
         return HTML(self.s)
 
 
-REPR_RETURNS_HTML = False     # enabled together with the fix of the defect it exposes (see known_findings.json)
+REPR_RETURNS_HTML = True      # self-rendering objects whose _repr_html_() returns HTML(): finding F9 (fixed c4a8f45)
 
 
 def _pick(s: str) -> int:
